@@ -22,6 +22,14 @@ CHECKS = {
         design="§7 C08",
         note="bulletproofs-bls idealised as a sound and complete 64-bit range proof with binding Pedersen commitments; the commitment's link to the signed claim is C05.",
         technique="Coq theorems (lia over Z with explicit 2^64 wrap and the concrete modulus r) + differential end-to-end correspondence"),
+    "C13": dict(
+        text="Theorems over every operation sequence (fold over the op list, any length): registry invariant (duplicate-free ordered sets, active subset of elements, divided-out identifiers = elements minus active, each exactly once); "
+             "refinement of the concrete registry to the abstract issued/revoked sets with identical outcomes (active = issued minus revoked); an operation that returns an error leaves the state equal; refresh iff active; issuance refused iff revoked, forever; "
+             "in the exponent model the published value changes only by a successful revocation, a fresh handle verifies, a handle verifies iff the value it was made for is the current one. "
+             "Correspondence: every sequence of depth <= 2 (thorough: 3) over a 23-operation alphabet after three prefixes plus random histories, BBS and PS, compared step by step (result, ordered sets, accumulator exponent, witness.verify of every handle).",
+        design="§7 C13",
+        note="Hypotheses of the algebraic theorems: abstract field (is_field K), h(id)+alpha <> 0, batch divisor <> 1 for stale handles. Claims given to issuance are conformant (C15). Persist/restore through JSON and CBOR.",
+        technique="Coq theorems (invariant + refinement by induction over operation lists; field tactic for the accumulator) + differential correspondence of issuer histories"),
 }
 
 PLANNED = {
